@@ -94,6 +94,13 @@ fn quat() -> Shape {
 /// serialized value instead of being assumed
 fn basis(n: usize) -> Shape {
     let toks = if n == 2 { to_tokens(&<Basis2<f64> as cgmath::Rotation2>::from_angle(Rad(0.0))) } else { to_tokens(&Basis3::<f64>::from_quaternion(&Quaternion::new(1.0, 0.0, 0.0, 0.0))) };
+    // ... nor is the wrapper level itself: a Basis that serializes as the matrix it holds has the matrix's shape
+    if let Ok(t) = &toks {
+        let (mut p, mut sc) = (0, Vec::new());
+        if match_shape::<f64>(&matn(n), t, &mut p, "", &mut sc).is_ok() && p == t.len() {
+            return matn(n);
+        }
+    }
     let name: &'static str = match toks.ok().and_then(|t| t.into_iter().find_map(|x| if let Tok::Field(f) = x { Some(f) } else { None })) {
         Some(f) => Box::leak(f.into_boxed_str()),
         None => "mat",
